@@ -36,11 +36,21 @@ def spec_objects(tier):
     for c in ("SingleMemory", "SingleDiskCopy", "SingleDiskMove",
               "NoneSchedule"):
         out.append(D.Config(c, (), 0))
-    periods = (1, 2, 3) if tier == "quick" else (1, 2, 3, 4)
+    periods = (1, 2, 3) if tier == "quick" else (1, 2, 3, 4, 5, 7)
     for period in periods:
-        for bs in (0, 1):
+        for bs in ((0, 1) if tier == "quick" else (0, 1, 2)):
             for st in ("RAM", "DISK"):
                 out.append(D.Config("TwoLevel", (period, bs, st, "maximum"), 0))
+    if tier != "quick":
+        out.append(D.Config("TwoLevel", (3, 1, "RAM", "revolve"), 0))
+        out.append(D.Config("TwoLevel", (4, 2, "DISK", "revolve"), 0))
+        for n in (4, 5):
+            out.append(D.Config("Multistage", (1, 1, "maximum"), n))
+            out.append(D.Config("Mixed", (2, "RAM"), n))
+            out.append(D.Config("Revolve", (2, 1, 1, 2, 2), n))
+            out.append(D.Config("HRevolve", (1, 1, 1, 1, 2, 2), n))
+            out.append(D.Config("DiskRevolve", (1, 1, 1, 5, 2), n))
+            out.append(D.Config("PeriodicDiskRevolve", (1, 3, 1, 2, 2), n))
     # beyond the interpreter's small-int cache (identity vs equality)
     out.append(D.Config("TwoLevel", (129, 1, "RAM", "maximum"), 0))
     out.append(D.Config("Multistage", (0, 4, "maximum"), 300))
